@@ -192,3 +192,55 @@ def hash_purity_obligations(repo, rels=("redun/value.py", "redun/task.py", "redu
                 )
             )
     return out
+
+
+MEMO_DECORATORS = ("lru_cache", "cache", "lru_cache_custom", "memoize", "cached")
+
+
+def memoised_callee_obligations(repo, rels, is_root, depth=3):
+    """A function whose result must depend on its argument's exact value (type included) must not be served from a memo keyed by `==`/hash():
+    functools.lru_cache and friends equate 1, 1.0 and True (and 0.0 with -0.0).  For every root function (selected by `is_root(leaf_name)`) in the
+    given modules, the root and its same-module callees (by plain name or self-method, up to `depth` levels) carry no memoising decorator.
+    Yields (construct, ok, message, rel, line)."""
+    from .core import calls_in, decorators
+
+    out = []
+    for rel in rels:
+        mod = repo.mod(rel)
+        by_leaf = {}
+        for q, fn in mod.funcs.items():
+            by_leaf.setdefault(q.split(".")[-1], []).append((q, fn))
+        for q, fn in mod.funcs.items():
+            leaf = q.split(".")[-1]
+            if not is_root(leaf):
+                continue
+            seen = {q}
+            frontier = [(q, fn)]
+            memo = None
+            for _ in range(depth + 1):
+                nxt = []
+                for qq, f in frontier:
+                    ds = [d.split(".")[-1] for d in decorators(f)]
+                    hit = [d for d in ds if d in MEMO_DECORATORS]
+                    if hit and memo is None:
+                        memo = (qq, hit[0], f.lineno)
+                    for c in calls_in(f):
+                        nm = call_name(c) or ""
+                        if "." in nm and not nm.startswith("self.") and not nm.startswith("cls."):
+                            continue
+                        for q2, f2 in by_leaf.get(nm.split(".")[-1], []):
+                            if q2 not in seen:
+                                seen.add(q2)
+                                nxt.append((q2, f2))
+                frontier = nxt
+            out.append(
+                (
+                    f"{rel}:{q}:memoised",
+                    memo is None,
+                    (f"{q} is served through `{memo[0]}`, which is decorated with @{memo[1]} (line {memo[2]}): the memo is keyed by ==/hash(), so arguments that are equal but of "
+                     "different type (1, 1.0, True; 0.0, -0.0) share one entry and whichever was seen first in the process decides the result for the others") if memo else "",
+                    rel,
+                    memo[2] if memo else fn.lineno,
+                )
+            )
+    return out
